@@ -48,6 +48,11 @@ theorem PInv.cancelKindFor_fst {w : World} (h : PInv ex fr w) (p : Pid) (act : N
   unfold Sim.cancelKindFor
   exact PInv.foldl (fun w q h => by pinv) _ h
 macro_rules | `(tactic| pinv_step) => `(tactic| with_reducible apply PInv.cancelKindFor_fst)
+theorem PInv.cancelUserAll_fst {w : World} (h : PInv ex fr w) :
+    PInv ex fr (cancelUserAll w).1 := by
+  unfold Sim.cancelUserAll
+  exact PInv.foldl (fun w q h => by pinv) _ h
+macro_rules | `(tactic| pinv_step) => `(tactic| with_reducible apply PInv.cancelUserAll_fst)
 
 theorem PInv.recordRes {w : World} (h : PInv ex fr w) (r : Nat) : PInv ex fr (recordRes w r) := by
   unfold Sim.recordRes; pinv
